@@ -497,3 +497,112 @@ pub fn t050() -> (i64, i64, i64) {
     let total: i64 = ps.iter().map(|p| p.a).sum();
     (first.a, ps[0].a, total)
 }
+#[derive(Debug, Clone, Copy, PartialEq, Eq)]
+pub enum Nd {
+    Leaf([usize; 1], usize),
+    Inner([usize; 3]),
+}
+impl Nd {
+    fn nhd_mut(&mut self) -> &mut [usize] {
+        match self {
+            Nd::Leaf(n, _) => n,
+            Nd::Inner(n) => n,
+        }
+    }
+    fn nhd(&self) -> &[usize] {
+        match self {
+            Nd::Leaf(n, _) => n,
+            Nd::Inner(n) => n,
+        }
+    }
+    fn parent(self) -> usize {
+        if let Nd::Leaf([p], _) = self {
+            p
+        } else {
+            99
+        }
+    }
+}
+pub fn t051() -> (Vec<Nd>, Nd, usize, bool) {
+    let mut ns = vec![Nd::Leaf([1], 7), Nd::Inner([0, 2, 3])];
+    let copy = ns[1];
+    for n in ns[1].nhd_mut().iter_mut() {
+        if *n == 2 {
+            *n = 5;
+            break;
+        }
+    }
+    ns[0].nhd_mut()[0] = 4;
+    let mut c2 = copy;
+    c2.nhd_mut()[2] = 8;
+    (ns.clone(), copy, ns[0].parent() + c2.nhd()[2], matches!(ns[0], Nd::Leaf(_, 7)))
+}
+pub fn t052() -> Vec<&'static str> {
+    let mut out = vec![];
+    for op in 0..10usize {
+        out.push(match op {
+            0 => "leaf",
+            1..=4 => "local",
+            5..7 => "mid",
+            _ => "move",
+        });
+    }
+    out
+}
+pub fn t053() -> (bool, bool, usize, Vec<usize>) {
+    use std::collections::HashSet;
+    let avoid = [3usize, 4];
+    let mut seen: HashSet<usize> = avoid.iter().copied().collect();
+    let a = seen.insert(1);
+    let b = seen.insert(3);
+    let mut path = vec![];
+    let mut cur = 0usize;
+    'dfs: while cur != 6 {
+        for n in [3usize, 1, 4, 6, 2] {
+            if !seen.contains(&n) {
+                cur = n;
+                path.push(n);
+                seen.insert(n);
+                continue 'dfs;
+            }
+        }
+        break;
+    }
+    (a, b, seen.len(), path)
+}
+pub fn t054() -> (usize, bool, String, Vec<u8>) {
+    use std::collections::HashMap;
+    let mut m: HashMap<(usize, usize), usize> = HashMap::new();
+    m.insert((1, 2), 5);
+    let a = m.get(&(1, 2)).copied().unwrap_or_default() + m.get(&(2, 1)).copied().unwrap_or_default();
+    let b: bool = None.unwrap_or_default();
+    let s: String = None.unwrap_or_default();
+    let v: Vec<u8> = None.unwrap_or_default();
+    m.clear();
+    (a + m.len(), b, s, v)
+}
+pub fn t055() -> (usize, usize, (usize, usize)) {
+    let (mut a, mut b) = (1usize, 2usize);
+    if a < b {
+        (b, a) = (a, b);
+    }
+    let ranks = vec![3usize, 1, 2];
+    (ranks.iter().max().copied().unwrap_or(0), ranks.iter().map(|r| r * r).sum(), (a, b))
+}
+pub fn t056() -> (f64, f64, bool, bool, f64, bool) {
+    let old = 13usize;
+    let new = 16usize;
+    let delta = old as f64 - new as f64;
+    let t = 5.0 * (1.0 + (new as f64 - 12.0) / 12.0);
+    let zero = 0.0f64;
+    let nan = zero / zero;
+    ((delta / t).exp(), 7.5 / 2.0, (1.0 / zero).is_infinite(), nan.is_nan(), 7.5 % 2.0, nan > 1.0)
+}
+pub fn t057() -> (usize, bool, Option<u8>, u8, f64, f64, f64, f64) {
+    let v: Vec<(usize, u8)> = vec![(7, 1)];
+    let [(a, _b)] = v.clone().try_into().unwrap();
+    let two: Result<[(usize, u8); 2], _> = v.try_into();
+    let r: Result<u8, String> = Err("x".to_string());
+    let k: Result<u8, String> = Ok(4);
+    (a, two.is_err(), r.clone().ok(), k.map(|x| x + 1).unwrap_or(0) + r.unwrap_or(9), (1.5f64).clamp(0.0, 1.0), (-0.5f64).clamp(0.0, 1.0), (0.25f64).min(0.5), (0.25f64).max(0.5))
+}
